@@ -538,23 +538,7 @@ func c19Recover(c *Ctx, once *crSigOnce, d *c19DB, img *stor.Stor, cs *c19Case, 
 		return
 	}
 	if cs.lean != nil {
-		dbg := ""
-		if os.Getenv("VERIF_C19_LEANDUMP") != "" {
-			ks := []string{}
-			for k := range got {
-				ks = append(ks, k)
-			}
-			sort.Strings(ks)
-			dbg = "ok " + part
-			for _, k := range ks {
-				v := got[k]
-				if len(v) > 12 {
-					v = v[:12]
-				}
-				dbg += " " + gen.Hex([]byte(k)) + "=" + gen.Hex([]byte(v))
-			}
-		}
-		if c19EmitRebuild(c, cs.lean, d.o, cs.Hist.Opts.Cmp, "ok "+crDigest(got), dbg) {
+		if c19EmitRebuild(c, cs.lean, d.o, cs.Hist.Opts.Cmp, "ok "+crDigest(got)) {
 			c.Res.Count("lean", part+":images")
 		}
 		cs.lean = nil
